@@ -331,7 +331,9 @@ static void after_op(World &w, const Op &op, int rc) {
         if (w.mode == 1 && rc == 0 && op_modifies(op.kind) && !node_equal(w.last, doc, where)) {
             w.fail("C09.ro-mutator-throws", "mutating call returned normally on a ReadOnly file and the observable state changed at " + where); return;
         }
-        if (!order_preserved(w.last, doc, where)) { w.fail("C03.order", where); return; }
+        // replace-whole-list setters re-link every member in the order given: relative order of survivors is theirs to choose
+        bool relinks = op.kind == OP_tag_setrefs || op.kind == OP_set_sources || op.kind == OP_group_set;
+        if (!relinks && !order_preserved(w.last, doc, where)) { w.fail("C03.order", where); return; }
         if (!w.del_victim.empty() && rc == 0 && w.del_result) {
             Node expect = w.last;
             std::set<std::string> ids;
